@@ -16,16 +16,24 @@ git -C $WT apply $D/patch.diff || { echo "patch does not apply in worktree"; exi
 SUITE=$( cd $WT && PYTHONPATH=$WT timeout 900 /venv/bin/python -m pytest -q -p no:cacheprovider --deselect tests/test_timeline.py::test_timeline_background --deselect tests/test_timeline_clock.py::test_timeline_clock_accuracy --deselect tests/test_timeline.py::test_timeline_schedule_real_clock 2>&1 | tail -1 )
 git -C $WT checkout -q -- .
 echo "$ID: demo unchanged=$D0 changed=$D1 suite: $SUITE"
-# against /repo
+# against /repo (default), or — MUTANT_VIA_WORKTREE=1, e.g. while a background run is reading /repo — against the
+# scratch worktree through ISOBAR_REPO (the harness imports isobar and regenerates its tables from there)
 if ! git -C /repo apply --check $D/patch.diff 2>/dev/null; then echo "$ID: patch does not apply to /repo HEAD"; RES="patch-does-not-apply"; else
-git -C /repo apply $D/patch.diff
+if [ "${MUTANT_VIA_WORKTREE:-0}" = "1" ]; then
+  [ "$(git -C $WT rev-parse HEAD)" = "$(git -C /repo rev-parse HEAD)" ] || { echo "$ID: worktree is not at /repo HEAD"; exit 2; }
+  git -C $WT apply $D/patch.diff; TARGET=$WT
+else
+  git -C /repo apply $D/patch.diff; TARGET=/repo
+fi
 RES=""
 for CH in $C $EXTRA; do
-  O=$(cd /verif && VERIF_SEED=${VERIF_SEED:-0} timeout 900 ./check $CH 2>&1 | grep -E "^VIOLATION|tier=" | cut -c1-220 | head -4)
+  O=$(cd /verif && ISOBAR_REPO=$TARGET VERIF_SEED=${VERIF_SEED:-0} timeout 900 ./check $CH 2>&1 | grep -E "^VIOLATION|tier=" | cut -c1-220 | head -4)
   E=$?
   RES="$RES\n[$CH] $O"
 done
-git -C /repo checkout -q -- .
+git -C $TARGET checkout -q -- .
+# leave the generated tables as /repo has them
+[ "$TARGET" = "/repo" ] || (cd /verif && /venv/bin/python -c "from harness import common; common.ensure_built()" >/dev/null 2>&1)
 fi
 echo -e "$RES"
 python3 - "$OUT" "$D" "$ID" "$C" "$D0" "$D1" "$SUITE" "$(echo -e "$RES")" <<'PY'
